@@ -127,7 +127,7 @@ class Descriptor:
     def __init__(self, path: Path):
         self.path = path
 
-        self.xml: Element = ElementTree.fromstring(path.read_text())
+        self.xml: Element = ElementTree.fromstring(path.read_bytes())
         self.storage_data = StorageData.from_xml(self.xml.find("StorageData"))
         self.snapshots = Snapshots.from_xml(self.xml.find("Snapshots"))
 
